@@ -10,6 +10,14 @@ values spelled relative to its own directory; one slot per case is optionally re
 *different* directory of the fixture (so that resolving against any wrong base is observable as a false accept or a
 false reject), by a missing file, or the file is broken (malformed, unknown key, dangling reference).
 
+Two further axes (each on the otherwise valid layouts, one position per case):
+  * `app` - one level additionally *appends* to its list of paths with the `files+:` key (after setting `files` in the
+    same file, without setting it, or onto a value given on the command line before the file); the appended spellings
+    are again relative to the file they are written in, and one of them optionally exists only in that file's
+    directory / only in the working directory / nowhere;
+  * `entry` - on the parse_path channel the entry file is handed over not as a string but as an object: a Path created
+    while the process was in another directory, a Path created with cwd=<another directory>, or an os.PathLike.
+
 Oracle: the parse succeeds iff every value is valid *relative to the directory of the file it is written in*; each
 resulting Path reports the written spelling as `.relative` and join(that directory, spelling) as `.absolute`; after
 every parse - failing or not - os.getcwd() and the current_path_dir context variable are what they were before.
@@ -26,6 +34,11 @@ CWD = "W"
 FLAVOURS = ["parser", "group", "subclass", "listfile"]
 CHANNELS = ["config", "parse_path", "default", "string", "subarg"]
 BROKEN = ["malformed", "unknown-key", "missing-ref"]
+ENTRY_FORMS = ["str", "path-elsewhere", "path-cwdarg", "pathlike"]  # how parse_path is given the entry file
+ELSEWHERE = "X/c"  # the directory a Path object of the entry file remembers (never the working directory)
+APPEND_MODES = ["after-set", "only", "onto-argv"]
+APPEND_KINDS = ["common", "own", "missing"]  # + "only:<dir>"
+APPEND_MECH = "key+append"
 
 
 def tag(d):
@@ -82,6 +95,33 @@ def matrix(tier):
     return pairs
 
 
+def appends(tier, case):
+    """Every single-position append [level (1-based), mode, kind] for an otherwise valid layout."""
+    fl, ch, depth = case["flavour"], case["channel"], len(case["dirs"])
+    if len(set(case["refs"])) > 1:
+        return []  # appends are explored with uniformly spelled references (all relative | all absolute)
+    out = []
+    for level in range(1, depth + 1):
+        if fl == "listfile" and level == depth:
+            continue  # a list file has no keys
+        for mode in APPEND_MODES:
+            if mode == "onto-argv":
+                # a value given on the command line BEFORE the file: only the entry file can follow the command line
+                if level != 1 or not (ch == "config" or (ch == "subarg" and fl != "subclass")):
+                    continue
+            if mode == "after-set":
+                # quick: a nowhere-existing item is left to thorough (an item that exists only in the working directory
+                # is as invalid in every other directory)
+                kinds = ["common", "own", "only:" + tag(CWD)] if tier == "quick" else list(APPEND_KINDS) + ["only:" + tag(d) for d in DIRS[tier]]
+            elif mode == "only" and tier == "quick":
+                kinds = ["own"]
+            else:
+                kinds = ["own", "only:" + tag(CWD)]
+            for kind in kinds:
+                out.append([level, mode, kind])
+    return out
+
+
 def depths(flavour, channel):
     if channel == "subarg":
         return [1, 2]  # the entry file already sits one level down
@@ -102,8 +142,16 @@ def nest_cases(tier):
                     if ch == "string" and refs[0] != "rel":
                         continue  # no entry reference
                     for alt in alternatives(tier, depth, fl):
-                        out.append({"env": "nest", "flavour": fl, "channel": ch, "dirs": list(dirs), "refs": refs, "alt": alt})
-    out.sort(key=lambda c: (len(c["dirs"]), c["alt"] is not None, json.dumps(c, sort_keys=True)))
+                        case = {"env": "nest", "flavour": fl, "channel": ch, "dirs": list(dirs), "refs": refs, "alt": alt}
+                        out.append(case)
+                        if ch == "parse_path" and fl == "parser":
+                            # the entry file handed over as an object that remembers another directory
+                            # (quick: a Path created with cwd= is the same object as one created elsewhere - left to
+                            # thorough here; the nested-context part enters both kinds in either tier)
+                            out += [dict(case, entry=form) for form in ENTRY_FORMS[1:] if not (tier == "quick" and form == "path-cwdarg")]
+                        if alt is None:
+                            out += [dict(case, app=app) for app in appends(tier, case)]
+    out.sort(key=lambda c: (len(c["dirs"]), c["alt"] is not None, "app" in c, "entry" in c, json.dumps(c, sort_keys=True)))
     return out
 
 
@@ -156,6 +204,7 @@ def _ref(root, from_dir, to_file, style):
 def plan(case, root):
     """Lay out one case: files to write, the entry call, and what the oracle expects at every level."""
     fl, ch, dirs, refs, alt = case["flavour"], case["channel"], case["dirs"], case["refs"], case["alt"]
+    app = case.get("app")
     depth = len(dirs)
     offset = 1 if ch == "subarg" else 0
     names = [f"{d}/cfg{i + 1}.{'lst' if (fl == 'listfile' and i == depth - 1) else 'yaml'}" for i, d in enumerate(dirs)]
@@ -173,6 +222,24 @@ def plan(case, root):
                 "dir": "sub",
                 "out": "sub/new.txt",
             }
+        lv["write"] = dict(lv["values"])  # what the file says; `values` is what the result must hold
+        lv["pre"] = []  # [spelling, directory] of list items that precede the file's own (given on the command line)
+        lv["appended"] = 0  # how many trailing items of `files` were written with `files+`
+        if app is not None and app[0] == i + 1 and not is_list:
+            _, mode, kind = app
+            extra = {"common": [], "own": [f"only_{tag(d)}.txt"], "missing": ["missing.txt"]}.get(kind)
+            if extra is None:
+                extra = [f"only_{kind[5:]}.txt"]
+            added = ["sub/deep.txt"] + extra
+            lv["write"]["files+"] = added
+            lv["appended"] = len(added)
+            if mode == "after-set":
+                lv["values"]["files"] = lv["values"]["files"] + added
+            else:
+                del lv["write"]["files"]
+                lv["values"]["files"] = added
+                if mode == "onto-argv":
+                    lv["pre"] = [["common.txt", CWD]]
         if alt is not None and alt[0] == i + 1:
             kind = alt[1]
             if kind.startswith("only:"):
@@ -180,12 +247,12 @@ def plan(case, root):
                 if is_list:
                     lv["values"]["lst"] = lv["values"]["lst"] + [sp]
                 else:
-                    lv["values"]["slot"] = sp
+                    lv["values"]["slot"] = lv["write"]["slot"] = sp
             elif kind == "missing":
                 if is_list:
                     lv["values"]["lst"] = lv["values"]["lst"] + ["missing.txt"]
                 else:
-                    lv["values"]["slot"] = "missing.txt"
+                    lv["values"]["slot"] = lv["write"]["slot"] = "missing.txt"
             else:
                 lv["broken"] = kind
         if i + 1 < depth:
@@ -206,7 +273,7 @@ def plan(case, root):
         elif lv["broken"] == "malformed":
             text = "files: [unclosed\n"
         else:
-            body = dict(lv["values"])
+            body = dict(lv["write"])
             if "ref" in lv:
                 body["lst" if nxt_is_list else "sub"] = lv["ref"]
             if lv["broken"] == "unknown-key":
@@ -242,6 +309,9 @@ def expected(levels, root, cut):
                     good = os.path.isdir(par) and os.access(par, os.W_OK) and (not os.path.exists(target) or os.path.isfile(target))
                 if not good:
                     reasons.append(f"level {i + 1} {key}={sp!r} is not valid relative to {lv['dir']}")
+        for sp, d in lv["pre"]:
+            if not os.path.isfile(os.path.join(root, d, sp)):
+                reasons.append(f"command line files={sp!r} is not valid relative to {d}")
     return not reasons, reasons
 
 
@@ -269,10 +339,42 @@ def _check_path(J, devs, what, obj, spelling, base_dir, mech):
         devs.append((f"nest:wrong-absolute:{mech}", f"{what}: .absolute={got!r}, the file's directory gives {want!r}"))
 
 
+def _entry_object(J, case, root, entry_file, entry_ref):
+    """What parse_path is given: the spelling, or an object naming the same file that remembers another directory."""
+    form = case.get("entry", "str")
+    if form == "str":
+        return entry_ref
+    if form == "pathlike":
+        return _PathLike(entry_ref)
+    mode = "fr"
+    other = os.path.join(root, ELSEWHERE)
+    spelling = entry_ref if os.path.isabs(entry_ref) else os.path.relpath(os.path.join(root, entry_file), other)
+    if form == "path-cwdarg":
+        return J.Path(spelling, mode=mode, cwd=other)
+    if form == "path-elsewhere":
+        here = os.getcwd()
+        os.chdir(other)
+        try:
+            return J.Path(spelling, mode=mode)
+        finally:
+            os.chdir(here)
+    raise AssertionError(form)
+
+
+class _PathLike:
+    def __init__(self, s):
+        self.s = s
+
+    def __fspath__(self):
+        return self.s
+
+
 def _rejects_valid_signature(case, levels):
     """Class of a valid layout that is rejected: entry channel + nesting mechanism; the list-file hop is
     classified by how the list file is referenced (that is what decides whether it is found)."""
     fl, ch = case["flavour"], case["channel"]
+    if case.get("app"):
+        return f"nest:rejects-valid:{APPEND_MECH}"
     if fl == "listfile":
         last = len(levels) - 1
         from_dir = levels[last - 1]["dir"] if last > 0 else CWD
@@ -315,17 +417,21 @@ def run_nest(case, root):
             parser = _parser(J, fl)
         # an argument that FOLLOWS --config on the command line is relative to the working directory again
         trailing = ["--slot", f"only_{tag(CWD)}.txt"] if ch == "config" and case["alt"] is None else []
+        # a list value given on the command line BEFORE the file (the file then appends to it)
+        leading = []
+        if levels[0]["pre"]:
+            leading = ["--files" if ch == "config" else "--sub.files", json.dumps([sp for sp, _ in levels[0]["pre"]])]
         if ch == "config":
-            o = outcome(parser.parse_args, ["--config", entry_ref] + trailing)
+            o = outcome(parser.parse_args, leading + ["--config", entry_ref] + trailing)
         elif ch == "parse_path":
-            o = outcome(parser.parse_path, entry_ref)
+            o = outcome(parser.parse_path, _entry_object(J, case, root, levels[0]["file"], entry_ref))
         elif ch == "default":
             o = outcome(parser.parse_args, [])
         elif ch == "string":
             o = outcome(parser.parse_string, levels[0]["text"])
         else:
             key = "--lst" if levels[0]["is_list"] else "--sub"
-            o = outcome(parser.parse_args, [key, entry_ref])
+            o = outcome(parser.parse_args, leading + [key, entry_ref])
         after = os.getcwd()
         ctx_after = ctxvar.get() if ctxvar is not None else None
         mech1 = ch if ch != "subarg" else fl
@@ -341,9 +447,11 @@ def run_nest(case, root):
                 devs.append((_rejects_valid_signature(case, levels), o["message"][:400]))
         else:
             if not want_ok:
-                # attributed to the hop that leads to the (single) invalid level: entry channel or nesting mechanism
+                # attributed to the hop that leads to the (single) invalid level: entry channel or nesting mechanism;
+                # an invalid appended item to the append mechanism
                 bad_level = case["alt"][0] if case["alt"] else 1
-                devs.append((f"nest:accepts-invalid:{mech1 if bad_level == 1 else fl}", "; ".join(reasons)))
+                mech_bad = APPEND_MECH if case.get("app") else (mech1 if bad_level == 1 else fl)
+                devs.append((f"nest:accepts-invalid:{mech_bad}", "; ".join(reasons)))
             cfg = o["value"]
             if trailing:
                 _check_path(J, devs, "argument after --config", cfg.get("slot"), trailing[1], cwd_dir, "argv-after-config")
@@ -370,11 +478,18 @@ def run_nest(case, root):
                 for key, val in lv["values"].items():
                     got = ns.get(key)
                     if isinstance(val, list):
-                        if not isinstance(got, list) or len(got) != len(val):
-                            devs.append((f"nest:wrong-value:{mech}", f"{key}={got!r}, file has {val!r}"))
+                        # items: [spelling, directory it is relative to, responsible mechanism]
+                        want = [[sp, os.path.join(root, d), "argv-before-config"] for sp, d in lv["pre"]] if key == "files" else []
+                        want += [[sp, base, mech] for sp in val]
+                        if key == "files":
+                            for item in want[len(want) - lv["appended"] :]:
+                                item[2] = APPEND_MECH
+                        if not isinstance(got, list) or len(got) != len(want):
+                            m = APPEND_MECH if key == "files" and lv["appended"] else mech
+                            devs.append((f"nest:wrong-value:{m}", f"{key}={got!r}, expected {[w[0] for w in want]!r}"))
                             continue
-                        for g, sp in zip(got, val):
-                            _check_path(J, devs, f"level {i + 1} {key}", g, sp, base, mech)
+                        for g, (sp, b, m) in zip(got, want):
+                            _check_path(J, devs, f"level {i + 1} {key}", g, sp, b, m)
                     else:
                         _check_path(J, devs, f"level {i + 1} {key}", got, val, base, mech)
                 # the bookkeeping entry of a nested file names that file relative to the referencing one
@@ -399,7 +514,9 @@ def run_nest(case, root):
 # =====================================================================================================
 # the context manager itself: nested relative_path_context() blocks (public API of Path)
 
-CTX_STEPS = ["dir-abs", "file-abs", "dir-rel-sub", "dir-rel-up", "file-rel", "dir-rel-other"]
+# the last three: the Path object remembers a directory that is not the one the process is in when the block is entered
+# (created with cwd=<other directory>, or created up front in the start directory)
+CTX_STEPS = ["dir-abs", "file-abs", "dir-rel-sub", "dir-rel-up", "file-rel", "dir-rel-other", "file-cwdarg", "dir-cwdarg", "dir-prebuilt"]
 
 
 class _Boom(Exception):
@@ -418,7 +535,13 @@ def ctx_cases(tier):
 
 
 def _ctx_step(root, name, cur):
-    """-> (path argument, mode, directory the context must enter), all relative to the model's current directory."""
+    """-> (path argument, mode, directory the context must enter[, base directory of the spelling if not `cur`])."""
+    if name == "file-cwdarg":
+        return "common.txt", "fr", os.path.join(root, "X"), os.path.join(root, "X")
+    if name == "dir-cwdarg":
+        return "sub", "dr", os.path.join(root, "X/c/sub"), os.path.join(root, "X/c")
+    if name == "dir-prebuilt":
+        return "a", "dr", os.path.join(root, CWD, "a"), os.path.join(root, CWD)
     if name == "dir-abs":
         return os.path.join(root, "W/a"), "dr", os.path.join(root, "W/a")
     if name == "file-abs":
@@ -456,12 +579,17 @@ def run_ctx(case, root):
             if case["raise"]:
                 raise _Boom()
             return
-        arg, mode, want = _ctx_step(root, steps[i], cur)
+        arg, mode, want, *other_base = _ctx_step(root, steps[i], cur)
         want = os.path.realpath(want)
-        target = os.path.normpath(os.path.join(cur, arg))
+        target = os.path.normpath(os.path.join(other_base[0] if other_base else cur, arg))
         valid = os.path.isdir(target) if "d" in mode else os.path.isfile(target)
         try:
-            p = J.Path(arg, mode=mode)
+            if steps[i] == "dir-prebuilt":
+                p = prebuilt
+            elif other_base:
+                p = J.Path(arg, mode=mode, cwd=other_base[0])
+            else:
+                p = J.Path(arg, mode=mode)
         except TypeError:
             if valid:
                 devs.append((f"ctx:rejects-valid:{steps[i]}", f"{arg!r} in {cur!r}"))
@@ -480,12 +608,14 @@ def run_ctx(case, root):
                 devs.append((f"ctx:wrong-yielded-dir:{steps[i]}", f"yielded {d!r}, model {want!r}"))
             descend(i + 1, want)
             if here() != want:
-                devs.append((f"ctx:cwd-not-restored:after-inner-exit:{steps[i]}", f"cwd {here()!r}, model {want!r}"))
+                # the block that has just been left is the one that had to restore
+                devs.append((f"ctx:cwd-not-restored:after-inner-exit:{steps[i + 1]}", f"cwd {here()!r}, model {want!r}"))
         if here() != cur:
             devs.append((f"ctx:cwd-not-restored:after-exit:{steps[i]}", f"cwd {here()!r}, model {cur!r}"))
 
     try:
         os.chdir(start)
+        prebuilt = J.Path("a", mode="dr")  # created in the start directory, entered from wherever the sequence has led
         try:
             descend(0, start)
             raised = None
